@@ -174,6 +174,12 @@ def __setitem__(self, indx, arg):
                                     self._derivs_[key]._denom_,
                                     arg_deriv._denom_))
 
+    # A derivative that was broadcasted to this object's shape is read-only; it
+    # needs arrays of its own before it can be updated along with the object
+    for key, self_deriv in list(self._derivs_.items()):
+        if self_deriv._readonly_:
+            self.insert_deriv(key, self_deriv.copy(), override=True)
+
     # Create the values index
     if has_ellipsis and self._rank_:
         vals_index = pre_index + self._rank_ * (slice(None),)
